@@ -13,6 +13,7 @@ pub enum RTy {
     U128,
     Usize,
     U8,
+    I8,
     Bool,
     Unit,
     Rng,
@@ -35,7 +36,7 @@ impl RTy {
             RTy::Scalar => "(car K)".into(),
             RTy::Bytes => "bytes".into(),
             RTy::PkShare | RTy::SigShare | RTy::SkShare => "share".into(),
-            RTy::U64 | RTy::U128 | RTy::U8 => "N".into(),
+            RTy::U64 | RTy::U128 | RTy::U8 | RTy::I8 => "N".into(),
             RTy::Usize => "nat".into(),
             RTy::Bool => "bool".into(),
             RTy::Unit => "unit".into(),
@@ -100,12 +101,14 @@ pub fn rty_of(t: &syn::Type, generics: &[(String, String)]) -> RTy {
         "Self::PairingResult" => return RTy::GtPt,
         "<Self::PublicKeyasGroup>::Scalar" | "<Self::SignatureasGroup>::Scalar" | "<<CasPairing>::PublicKeyasGroup>::Scalar"
         | "<<CasPairing>::SignatureasGroup>::Scalar" | "Scalar" => return RTy::Scalar,
+        "Self" if generics.iter().any(|(g, b)| g == "Self" && b == "[u8]") => return RTy::Bytes,
         "Self::SecretKeyShare" | "<CasPairing>::SecretKeyShare" => return RTy::SkShare,
         "Self::PublicKeyShare" | "<CasPairing>::PublicKeyShare" => return RTy::PkShare,
         "Self::SignatureShare" | "<SelfasPairing>::SignatureShare" | "<CasPairing>::SignatureShare" => return RTy::SigShare,
         "u64" => return RTy::U64,
         "usize" => return RTy::Usize,
         "u8" => return RTy::U8,
+        "i8" => return RTy::I8,
         "bool" | "Choice" => return RTy::Bool,
         "Vec<u8>" => return RTy::Bytes,
         _ => {}
